@@ -293,6 +293,7 @@ func runFakenetCeremony(c *kit.Case, cer ceremony, reg *keyRegistry, logs *faken
 		outNodeError
 		outStuckRejected
 		outTimeoutDrop
+		outDupDeadlock
 		outWatchdog
 	)
 	outcome := outOK
@@ -318,6 +319,13 @@ wait:
 
 				continue
 			}
+			if cer.Engine == engPedersen && time.Since(quietSince) >= 3*time.Second {
+				if _, _, _, ok := sc.pubkeyQueueOverfilled(n); ok {
+					outcome = outDupDeadlock
+
+					break wait
+				}
+			}
 			if time.Since(quietSince) >= stuckSettle && len(handlerErrorsOf(logs, logStart, m)) > 0 {
 				outcome = outStuckRejected
 
@@ -340,7 +348,7 @@ wait:
 	// abort cancels the ceremony and collects the remaining node goroutines.
 	abort := func() {
 		cancel()
-		to := time.NewTimer(30 * time.Second)
+		to := time.NewTimer(10 * time.Second)
 		defer to.Stop()
 		for remaining > 0 {
 			select {
@@ -366,10 +374,30 @@ wait:
 		if firstFailed >= 0 {
 			firstErr = errs[firstFailed]
 		}
+		if os.Getenv("C11_DEBUG") != "" { // development aid: show what the real code logged
+			for _, e := range logs.Since(logStart) {
+				fmt.Fprintf(os.Stderr, "C11_DEBUG case %d: %s\n", c.Idx, kit.Short(e.Raw, 400))
+			}
+			for _, d := range sc.orderCopy(2000) {
+				fmt.Fprintf(os.Stderr, "C11_DEBUG case %d deliver %d>%d %s\n", c.Idx, d.From, d.To, d.Class)
+			}
+		}
 		abort()
 		w := map[string]any{"ceremony": cer, "schedule": st, "all_delivered": delivered, "handler_errors": rejected,
 			"first_failed_node": firstFailed, "node_errors_after_cancel": errStrings(errs), "deliveries": sc.orderCopy(600)}
+		dlNode, dlBefore, dlRepeats, dupDeadlock := sc.pubkeyQueueOverfilled(n)
+		if cer.Engine != engPedersen || outcome == outNodeError {
+			dupDeadlock = false
+		}
+		w["redelivery_deadlock"] = map[string]any{"detected": dupDeadlock, "node": dlNode, "round1_broadcasts_handled_before_own_broadcast_completed": dlBefore, "of_which_repeats_total": dlRepeats}
 		switch {
+		case dupDeadlock:
+			// Caused purely by a re-delivered broadcast: reported, never discarded.
+			r.Count("ceremonies_stuck", 1)
+			r.Count("ceremonies_stuck_by_redelivery", 1)
+			c.Violation("dkg/pedersen/ceremony-failed/stuck-after-redelivered-node-pubkeys-broadcast/own-pubkey-send-blocks-on-full-queue",
+				fmt.Sprintf("%s: node %d had %d node_pubkeys broadcasts (n-1 peers + re-delivered copies) handled before its own broadcast completed; the board's pubkey queue (capacity n=%d, drained only afterwards) is full, "+
+					"BroadcastNodePubKey blocks on the self-send, the node never sends a deal and no node can complete (all %d envelopes delivered)", cer, dlNode, dlBefore, n, st.Sent), w)
 		case outcome == outNodeError && isRealTimeout(firstErr) && len(rejected) == 0:
 			// The real code bounds its stream reads by wall-clock timeouts (p2p.SendReceive: 5 s).
 			// On a loaded machine the harness-held envelope or the peer's answer can exceed them; a
@@ -377,13 +405,13 @@ wait:
 			// a ceremony that timed out, not a completed one - outside the property, discarded.
 			r.Count("ceremonies_discarded_real_timeout", 1)
 			r.Seen("discarded_timeout_errors", errClass(firstErr))
-			r.Seen("discarded_ceremonies", fmt.Sprintf("%s/%s/held-cap-releases=%d", cer, st.Mode, st.AgedOut))
+			r.Seen("discarded_ceremonies", fmt.Sprintf("case %d/%s/%s/dup=%s/held-cap-releases=%d/redeliveries=%d", c.Idx, cer, st.Mode, st.DupProfile, st.AgedOut, st.RedelivTotal))
 		case (outcome == outTimeoutDrop || outcome == outWatchdog) && len(rejected) == 0 && droppedByTimeout(logs, logStart, m) > 0:
 			// A pedersen board handler gave up handing a bundle to the protocol goroutine after its
 			// 5 s receive timeout ("Dropping ... context done"): wall-clock loss, not a reordering.
 			r.Count("ceremonies_discarded_real_timeout", 1)
 			r.Seen("discarded_timeout_errors", "board-handler-dropped-bundle-after-receive-timeout")
-			r.Seen("discarded_ceremonies", fmt.Sprintf("%s/%s/held-cap-releases=%d", cer, st.Mode, st.AgedOut))
+			r.Seen("discarded_ceremonies", fmt.Sprintf("case %d/%s/%s/dup=%s/held-cap-releases=%d/redeliveries=%d", c.Idx, cer, st.Mode, st.DupProfile, st.AgedOut, st.RedelivTotal))
 		case outcome == outNodeError && delivered:
 			r.Count("ceremonies_failed", 1)
 			c.Violation("dkg/"+cer.Engine+"/ceremony-failed/"+errClass(firstErr),
